@@ -126,6 +126,11 @@ Case vf_generate() {
     size_t run = 0; bool ok = true;
     for (char ch : a) { run = isdigit((unsigned char)ch) ? run + 1 : 0; if (run > 8) ok = false; }
     if (!ok) a = "a";
+    // oversized messages: an index written with many leading zeros is still that index (the number parser must cope without the heap)
+    if (vf::chance(8)) {
+      size_t dpos = a.find_first_of("0123456789");
+      if (dpos != std::string::npos) a.insert(dpos, (size_t)vf::oneof<int>({12, 200, 1100, 2500, 5000}), '0');
+    }
     c.addrs.push_back(a);
     c.tags.push_back(tg);
   }
@@ -188,7 +193,7 @@ std::string vf_run(const Case &c, vf::Ctx &ctx) {
         inst.tabs[(size_t)id]->default_handler = [big](const char *, rtosc::RtData &) { (*big.counter)++; };
     std::vector<pt::MsgBuf> msgs;
     for (size_t i = 0; i < c.addrs.size(); i++) msgs.emplace_back("/" + c.addrs[i], c.tags[i]);
-    char loc[1024];
+    char loc[8192];   // the library copies enumerated components into the location buffer unchecked (its own XXX note): keep it larger than any generated address
     for (size_t i = 0; i < msgs.size(); i++) {
       int before = g_leaf_calls;
       {
@@ -208,6 +213,7 @@ std::string vf_run(const Case &c, vf::Ctx &ctx) {
         if (!(e = g.done()).empty()) return e + " | /" + c.addrs[i] + " ," + c.tags[i] + " on " + c.tree.describe();
       }
       ctx.count(g_leaf_calls > before ? "dispatch.reached_leaf" : "dispatch.matched_nothing");
+      if (c.addrs[i].size() > 1000) ctx.count(g_leaf_calls > before ? "dispatch.oversized_index_reached_leaf" : "dispatch.oversized_index_matched_nothing");
     }
     bool hashed = false;
     for (int id = 0; id < 9; id++) {
